@@ -261,8 +261,10 @@ def run_check(pid, modnames, tier, seed, jobs, only=None, verbose=False):
         "violations": len(violations),
     }
     if not only:
-        os.makedirs(os.path.join(ROOT, "evidence"), exist_ok=True)
-        with open(os.path.join(ROOT, "evidence", f"{pid}.json"), "w") as f:
+        # runs against a scratch worktree (evaluation of seeded changes) must not overwrite the evidence of the real tree
+        evdir = os.path.join(ROOT, ".seed_evidence" if os.environ.get("VF_REPO") else "evidence")
+        os.makedirs(evdir, exist_ok=True)
+        with open(os.path.join(evdir, f"{pid}.json"), "w") as f:
             json.dump(ev, f, indent=1, default=str)
 
     print(
